@@ -132,7 +132,8 @@ def run_unit(unit, workdir, canary=False, rlimit=None, timeout=900, tpl_path=Non
         return _run_unit(unit, workdir, canary, rlimit, timeout, tpl_path)
     merged = None
     for nm in names:
-        r = _run_unit(unit, workdir, list(names), rlimit, timeout, tpl_path, extra=['--verify-root', '--verify-function', nm])
+        # `*::NAME`: the plain name is ambiguous for Verus when another item's name ends the same way
+        r = _run_unit(unit, workdir, list(names), rlimit, timeout, tpl_path, extra=['--verify-root', '--verify-function', '*::' + nm])
         r['functions'] = [f for f in r['functions'] if f['function'].split('::')[-1] == nm]
         if merged is None:
             merged = r
